@@ -145,10 +145,17 @@ SetBetween(b) == /\ between # b /\ file # <<>> /\ between' = b /\ UNCHANGED <<cu
                  /\ last' = Req(file, cur, layout, b, cmt, <<"between", b, 0>>)
 ToggleCmt == /\ cmt' = ~cmt /\ UNCHANGED <<cur, file, layout, between>>
              /\ last' = Req(file, cur, layout, between, ~cmt, <<"cmt", 0, 0>>)
+(* whole files of another size: no rule at all, and k rules with varied parts (drawn from the parts free of known findings) *)
+BigFile(k) == [i \in 1..k |-> <<1 + (i % 2), 1 + (i % 7), 1 + ((i * 5) % 12), 1 + (i % 5), 1 + (i % 2)>>]
+EmptyFile == /\ UNCHANGED <<cur, file, layout, between, cmt>>
+             /\ last' = [op |-> "parse", toks |-> <<>>, layout |-> layout, between |-> between, cmt |-> cmt, what |-> <<"empty", 0, 0>>]
+Big(k) == /\ UNCHANGED <<cur, file, layout, between, cmt>>
+          /\ last' = [op |-> "parse", toks |-> [i \in 1..k |-> Toks(BigFile(k)[i])], layout |-> layout, between |-> between, cmt |-> cmt,
+                      what |-> <<"big", k, 0>>]
 PartRange(p) == CASE p = 1 -> DOMAIN Names [] p = 2 -> DOMAIN SalVals [] p = 3 -> DOMAIN AttrLists [] p = 4 -> DOMAIN Conds [] p = 5 -> DOMAIN ActLists
 Next == /\ nops' = nops + 1
         /\ \/ \E p \in 1..5 : \E v \in PartRange(p) : SetPart(p, v)
-           \/ AppendRule \/ ToggleCmt
+           \/ AppendRule \/ ToggleCmt \/ EmptyFile \/ Big(4) \/ Big(8)
            \/ \E l \in 0..(NLayouts - 1) : SetLayout(l)
            \/ \E b \in 0..(NBetween - 1) : SetBetween(b)
 Spec == Init /\ [][Next]_vars
@@ -157,7 +164,9 @@ Spec == Init /\ [][Next]_vars
 AllRules == {<<a, b, c, d, e>> : a \in {1, 2}, b \in {1, 3}, c \in {1, 2}, d \in DOMAIN Conds, e \in {1, 18}}
 Injective == \A x, y \in AllRules : Toks(x) = Toks(y) => Ast(x) = Ast(y)      \* checked by MC_GrlGrammar (L1)
 
-Obs == [ok |-> TRUE, rules |-> [i \in DOMAIN Whole(file, cur) |-> Ast(Whole(file, cur)[i])]]
+Obs == CASE last.what[1] = "empty" -> [ok |-> TRUE, rules |-> <<>>]
+         [] last.what[1] = "big"   -> [ok |-> TRUE, rules |-> [i \in 1..last.what[2] |-> Ast(BigFile(last.what[2])[i])]]
+         [] OTHER -> [ok |-> TRUE, rules |-> [i \in DOMAIN Whole(file, cur) |-> Ast(Whole(file, cur)[i])]]
 Bound == nops <= MaxOps
 View == <<cur, file, layout, between, cmt>>
 StateRec == [cur |-> cur, file |-> file, layout |-> layout, between |-> between, cmt |-> cmt]
